@@ -20,7 +20,8 @@ func init() {
 			"R3b no sub-match verdict is dropped and the data of a FAILED sub-match never flows into a later attempt, in every verdict-returning function of the module (ok-discipline A4 with the failed-data rule); " +
 			"R4 MetavarMatcher and MetavarReplacer use the same key conversion metavarKey(<receiver>.Name) and the same value type; R5 in compileMeta the table entry is written only for names that are not \"_\" and not already declared; " +
 			"R6 no leakage between attempts: the traversal callback writes no captured variable except the match list, the data it starts every attempt from is the outer, never-reassigned value, and package data never writes into an existing Data node (persistent structure). " +
-			"NOT decided: that structural comparison by the captured matcher equals 'syntactically identical' (that is C01's rule set applied to the captured matcher, built by the same compiler); user-visible behaviour for all fillers. R7 the compiler that builds the captured matcher is not reconfigured, and the matcher compiler's ignore set (C01-R6) holds, so 'identical' ignores nothing but comments, Ident.Obj and position values.",
+			"NOT decided: that structural comparison by the captured matcher equals 'syntactically identical' (that is C01's rule set applied to the captured matcher, built by the same compiler); user-visible behaviour for all fillers. R7 the compiler that builds the captured matcher is not reconfigured, and the matcher compiler's ignore set (C01-R6) holds, so 'identical' ignores nothing but comments, Ident.Obj and position values." +
+			" R9 the name lists the failure memo consults are never overwritten (compilers are created per change; no field slice is truncated to length zero for re-use).",
 		Trusted:     commonTrusted,
 		Assumptions: commonAssumptions,
 	})
@@ -38,6 +39,9 @@ func runC02(r *an.Run) {
 	c01IgnoreSet(r)
 	relabel(r, "R6-ignore-set", "R7-captured-matcher-ignores-nothing-more")
 	memoDependencies(r, "R8-failure-memo-sees-every-binding")
+	// the name lists R8 relies on are slices of the matcher compiler's own list: they stay what
+	// compilation made them only if that list is never re-used for the next change
+	eachChangeOnItsOwn(r, "R9-name-lists-the-memo-consults-are-never-overwritten", true)
 }
 
 // relabel renames the rule of obligations produced by a rule function shared
@@ -407,7 +411,7 @@ func c02KeyAgreement(r *an.Run) {
 			good := ok && strings.HasSuffix(an.ShortType(mi.X.Type()), "metavarKey")
 			if good {
 				inner := an.Unwrap(mi.X)
-				good = len(f.Params) > 0 && an.Path(inner) == f.Params[0].Name()+".Name"
+				good = len(f.Params) > 0 && an.Path(inner) == an.ParamName(f.Params[0])+".Name"
 			}
 			r.Check(good, short(f)+"|key|"+an.TrimModule(an.CalleeName(c)), c.Pos(), "the data key is metavarKey(m.Name) of the receiver")
 		}
